@@ -514,6 +514,17 @@ def generate(repo):
         raise Untranslatable(f'green average written as {src[1]}')
     fact_item('deinterlaceAveragesGreens', 'prysm/bayer.py:demosaic_deinterlace', lambda: get_def(by, 'demosaic_deinterlace'), deinterlace)
 
+    def deinterlace_green():
+        """the green sample as a term of the two green planes (whatever its spelling)"""
+        fn = get_def(by, 'demosaic_deinterlace')
+        gs = [s_ for s_ in fn.body if isinstance(s_, ast.Assign) and ast.unparse(s_.targets[0]) == 'g']
+        if len(gs) != 1:
+            raise Untranslatable('demosaic_deinterlace: g assigned other than once')
+        return ('def deinterlaceGreen {K : Type} [Num K] (g1 g2 : K) : K := '
+                + Tr({'g1': 'g1', 'g2': 'g2'}, mode='num').expr(gs[0].value))
+    g.item('demosaic_deinterlace.green', 'prysm/bayer.py:demosaic_deinterlace', lambda: get_def(by, 'demosaic_deinterlace'), deinterlace_green,
+           f'def deinterlaceGreen {{K : Type}} [Num K] (g1 g2 : K) : K := {M}.deinterlaceGreen g1 g2')
+
     # ------------------------------------------------------------------ Malvar
     KNAME = {'kernel_G_at_R_or_B': 'kernelGAtRB', 'kernel_R_at_G_in_RB': 'kernelRAtGInRB',
              'kernel_R_at_G_in_BR': 'kernelRAtGInBR', 'kernel_R_at_B_in_BB': 'kernelRAtBInBB'}
